@@ -1,7 +1,15 @@
-"""C14I: observation of Mem2Var (filled in below)."""
+"""C14I: Mem2Var observer / validator glue (see c14i_part.py)."""
 from contextlib import contextmanager
 
 
 @contextmanager
 def wrap(obs):
     yield
+
+
+def run_families(obs, fams, ctx):
+    pass
+
+
+def report(ctx, obs, quick, rnd):
+    return 0
